@@ -188,8 +188,8 @@ class _TaskGen(object):
         else:
             op['step'] = None
             op['opts'] = _draw_obj_opts(rng)
-        if rng.random() < 0.25:
-            op['rt'] = rng.choice([1, 2, 3, 4])
+        if rng.random() < self.k['p_rt']:
+            op['rt'] = rng.choice(self.k['rts'])
         op['full'] = rng.random() < 0.7
         depth = 0
         if fun['name'] == 'nested':
@@ -443,7 +443,9 @@ def _knobs(rng, mode):
     return {
         'methods': methods, 'classes': classes, 'ns': ns, 'orders': orders, 'weights': weights,
         'ss': ss, 'vs': vs, 'vv': vv,
-        'p_nested': rng.choice([0.0, 0.0, 0.15, 0.4]),
+        'p_nested': rng.choice([0.0, 0.15, 0.3, 0.5]),
+        'rts': rng.choice([[1, 2, 3, 4], [3, 4], [2, 3], [1, 2, 3, 4, 5], [4], [3, 5]]),
+        'p_rt': rng.choice([0.0, 0.25, 0.25, 0.6, 0.9]),
         'p_sharegen': rng.choice([0.0, 0.2, 0.5, 0.8]),
         'p_xreuse': rng.choice([0.2, 0.6, 0.9]),
         'p_fault': rng.choice([0.0, 0.0, 0.1, 0.25]),
@@ -451,6 +453,44 @@ def _knobs(rng, mode):
         'maxobjs': rng.choice([1, 2, 3, 4]),
         'maxdim': rng.choice([1, 2, 3]) if mode != 'seq' else rng.choice([1, 2, 3, 4]),
     }
+
+
+def _rename(v, tid):
+    return 't%d.%s' % (tid, v.split('.', 1)[1]) if isinstance(v, str) and v.startswith('t0.') else v
+
+
+def _clone_ops(rng, ops, tid, knobs):
+    out = []
+    for op in ops:
+        c = copy.deepcopy(op)
+        for key in ('o', 'g'):
+            if key in c:
+                c[key] = _rename(c[key], tid)
+        if isinstance(c.get('step'), dict):
+            c['step']['gen'] = _rename(c['step']['gen'], tid)
+        if isinstance(c.get('opts', {}).get('step'), dict):
+            c['opts']['step']['gen'] = _rename(c['opts']['step']['gen'], tid)
+        if c['op'] == 'new':
+            if c['fun'].get('inner'):
+                c['fun']['inner'] = _rename(c['fun']['inner'], tid)
+            r = rng.random()
+            if r < 0.3:
+                c['rt'] = rng.choice(knobs['rts'] + [None])
+            elif r < 0.4 and 'order' in c:
+                c['order'] = rng.choice(knobs['orders'])
+            elif r < 0.5 and c['fun']['name'] in funpool.SS:
+                c['fun'] = {'name': rng.choice(knobs['ss'])}
+        elif c['op'] == 'call' and rng.random() < 0.3:
+            x = c['x']
+            if x['t'] == 'float':
+                c['x'] = dict(x, v=rng.choice(X_SCALARS))
+            elif x['t'] in ('list', 'arr') and x.get('dtype', 'float64') == 'float64':
+                c['x'] = dict(x, v=[rng.choice(X_SCALARS) for _ in x['v']])
+        if c['op'] == 'newgen' and c.get('kind') == 'one_step':
+            c['kind'] = 'Min'
+            c['opts'] = {'num_steps': 1}
+        out.append(c)
+    return out
 
 
 def generate(run_seed, mode='seq', ntasks=None):
@@ -465,8 +505,14 @@ def generate(run_seed, mode='seq', ntasks=None):
         nt = ntasks or rng.choice([2, 2, 2, 3, 3, 4, 4, 6, 8, 16])
     one_step_task = rng.randrange(nt) if rng.random() < 0.2 else -1
     tasks = []
+    clone = mode != 'seq' and rng.random() < 0.35
     for tid in range(nt):
-        tg = _TaskGen(rng, tid, knobs, allow_one_step=(tid == one_step_task))
+        if clone and tid > 0:
+            # "threads doing the same thing": a renamed copy of caller 0's history with small
+            # mutations - maximises simultaneous use of the same shared keys and code paths
+            tasks.append({'ops': _clone_ops(rng, tasks[0]['ops'], tid, knobs)})
+            continue
+        tg = _TaskGen(rng, tid, knobs, allow_one_step=(tid == one_step_task and not clone))
         if mode == 'seq':
             length = rng.randint(1, 12)
         else:
@@ -480,9 +526,18 @@ def generate(run_seed, mode='seq', ntasks=None):
             'budget': rng.choice([0, 2, 4, 8, 16, 32, 64]),
             'bias': rng.choice([0.0, 0.05, 0.3, 0.8]),
             'probe': rng.choice([0.0, 0.5, 1.0]),
+            'alias': rng.random() < 0.4,
+            'targets': None,
             'pick': rng.choice(['uniform', 'uniform', 'prio']),
             'prio': [rng.random() for _ in range(nt)],
         }
+    if nt > 1:
+        # PCT-style targets: ordinals of hot yield points, drawn over the estimated number of hot
+        # points of this plan (about 70 per judged call) so that every one of them is equally likely
+        ncalls = sum(1 for t in tasks for o in t['ops'] if o['op'] in ('call', 'ddiff'))
+        hot_est = max(30, int(70 * ncalls * rng.choice([0.5, 1.0, 1.0, 2.0])))
+        plan['sched']['targets'] = sorted(set(rng.randint(1, hot_est)
+                                              for _ in range(rng.choice([0, 1, 2, 4, 8, 16]))))
     plan['knobs'] = {k: knobs[k] for k in ('methods', 'classes', 'ns', 'orders', 'p_fault',
                                             'p_sharegen', 'p_nested')}
     return plan
@@ -671,6 +726,23 @@ def judge(plan, result, refs):
     violations = []
     nontrivial_run = False
     faulted_before = {}
+    opk = stats['op_kinds'] = {}
+    for t in plan['tasks']:
+        for o in t['ops']:
+            k = o['op']
+            if k == 'set':
+                k = 'restore' if o.get('restore') else 'set:' + o['attr']
+            elif k == 'new':
+                k = 'new:' + o['cls']
+                if isinstance(o.get('step'), dict):
+                    opk['new:with_shared_generator'] = opk.get('new:with_shared_generator', 0) + 1
+                if o['fun']['name'] == 'nested':
+                    opk['new:reentrant_function'] = opk.get('new:reentrant_function', 0) + 1
+            elif k == 'cache':
+                k = 'cache:' + ('flood' if o.get('flood') else o['kind'])
+            elif k == 'newgen':
+                k = 'newgen:' + o['kind']
+            opk[k] = opk.get(k, 0) + 1
     for ob in result['obs']:
         stats['ops'] += 1
         if ob.get('skipped'):
@@ -868,6 +940,7 @@ def evidence(tier, seed, by_mode, det, n_viol, known_hits, errors, wall):
             'fault_kinds_fired': faults,
             'yield_point_kinds': kinds,
             'distinct_states': len(states),
+            'operation_mix': {m: s.get('op_kinds', {}) for m, s in by_mode.items()},
             'distinct_interleavings_conflict_signatures': len(sigs),
             'per_mode': per_mode,
             'determinism_selftest': det,
